@@ -60,12 +60,12 @@ structure HankOut (K : Type) where
 
 /-- Python index normalisation of a slice bound on an axis of length `n`: negative bounds count from the
     end, then everything is clipped to `[0, n]`. -/
-def pyIdx (n : Nat) (i : Int) : Nat := if i < 0 then ((n : Int) + i).toNat else min i.toNat n
+def pySliceIdx (n : Nat) (i : Int) : Nat := if i < 0 then ((n : Int) + i).toNat else min i.toNat n
 
 /-- numpy `M[:, a:b]` for Python ints `a`, `b` of either sign (empty if the normalised stop is not after
     the normalised start). -/
 def colSlicePy (m : Mat K) (a b : Int) : Mat K :=
-  ⟨m.r, pyIdx m.c b - pyIdx m.c a, fun i j => m.e i (pyIdx m.c a + j)⟩
+  ⟨m.r, pySliceIdx m.c b - pySliceIdx m.c a, fun i j => m.e i (pySliceIdx m.c a + j)⟩
 
 /-- `np.vstack([blk i for i in range(n)])`, every block with `h` rows: `ValueError` unless all blocks have
     the same number of columns. -/
